@@ -990,6 +990,11 @@ void Exec<L, MODEL>::iterWalk(int v) {
   auto inside = [&](const char &r, const char *what) {
     if (&r < lo || &r > hi) fail(std::string(what) + ": dereference refers to memory outside the string buffer (offset " +
                                  std::to_string(static_cast<long long>(&r - lo)) + ")");
+    // an iterator that can be dereferenced designates a character of the content; the end position throws. A reference to the
+    // terminator (or behind it) would let the caller overwrite it
+    else if (&r >= lo + cf.length()) fail(std::string(what) + ": dereference did not throw but refers to offset " +
+                                          std::to_string(static_cast<long long>(&r - lo)) + ", which is not a character of the content (length " +
+                                          std::to_string(cf.length()) + ")");
     else { volatile char sinkc = r; (void)sinkc; }
   };
   auto walk = [&](auto it, const char *what) {
